@@ -136,6 +136,9 @@ def scenarios(draw):
         scn["same"] = draw(st.booleans())        # second operand gets the content of the first
         scn["dlabel"] = draw(st.one_of(st.none(), _stem)) if prog == "xzdiff" else None
         scn["dd"] = draw(st.booleans())
+        if draw(st.sampled_from([False, False, False, True])):
+            for f in scn["files"]:
+                f["rep"] = 20000
         return scn
     scn["label"] = draw(st.sampled_from(["grep", "sed"]))
     nf = draw(st.sampled_from([0, 1, 1, 2, 2, 2, 3, 3, 4]))
@@ -216,6 +219,10 @@ def content_of(f):
     data = b"\n".join(b(x) for x in f["lines"])
     if f["lines"] and f["eol"]:
         data += b"\n"
+    if f.get("rep"):
+        # diff/cmp scenarios only: contents far beyond the pipe buffer, so that decompressors can still be writing (and get
+        # SIGPIPE) when cmp / diff -q stops reading at the first difference
+        data = data * f["rep"]
     return data
 
 
